@@ -69,10 +69,69 @@ def gen_cases(rng, tier):
         cases.append({'frac': rng.choice([1.0, 0.5, 0.3, 0.3]), 'flip': rng.random() < 0.5, 'site_scale': rng.choice([1.0, 1.0, 0.97, 1.04]), 'm': m, 'rot': rng.random() < 0.3, 'rseed': rng.randrange(10**6), 'species': species, 'sites8': [list(p) for p in pts],
                       'labels': labels, 'coords': coords, 'max_dist': rng.choice([2.0, 3.5, 5.0]), 'res': rng.choice([0.5, 0.25, 0.7]),
                       'radius': rng.choice([0.5, 0.8])})
+    # ideal-crystal inputs: atoms on a 0.1 A grid of a 10 A cubic cell and shells 0.1 A wide, so that many distances sit exactly on shell edges
+    # (decided by recomputing the shells from the returned edges with the same float distances, see _impl_ideal)
+    for _ in range({'quick': 24, 'thorough': 200, 'search': 12}[tier]):
+        T = rng.randint(2, 4)
+        sites = [[10, 10, 10], [40, 10, 10], [10, 40, 10]]
+        # framework atoms on the axes through the sites, whole multiples of 0.1 A away (3, 6, 7, 12, 14, 24, 29 ...): distances k x 0.1 A
+        fw = []
+        for _f in range(rng.randint(6, 10)):
+            b = sites[rng.randrange(3)]
+            ax, kk = rng.randrange(3), rng.choice([3, 6, 7, 9, 12, 14, 21, 24, 27, 29]) * rng.choice([1, -1])
+            fw.append([(b[k] + (kk if k == ax else 0)) % 100 for k in range(3)])
+        frames = []
+        cur = rng.randrange(3)
+        for _t in range(T):
+            if rng.random() < 0.5:
+                cur = rng.randrange(3)
+            off = rng.choice([[0, 0, 0], [0, 0, 0], [3, 0, 0], [0, -4, 0], [0, 0, 6], [3, 4, 0]])
+            frames.append([[sites[cur][k] + off[k] for k in range(3)]] + [list(f) for f in fw])
+        cases.append({'ideal': True, 'coords100': frames, 'species': ['Li'] + [rng.choice(['O', 'S']) for _ in fw], 'sites100': sites, 'labels': ['A', 'B', 'A'],
+                      'res': rng.choice([0.1, 0.1, 0.3]), 'max_dist': 3.0})
     return cases
 
 
+def _impl_ideal(case):
+    from pymatgen.core import Structure
+    m = [[10, 0, 0], [0, 10, 0], [0, 0, 10]]
+    c = np.array(case['coords100'], dtype=float) / 100
+    traj = synth.make_traj(m, case['species'], c)
+    lat = traj.get_lattice()
+    sites = Structure(lattice=lat, species=['Li'] * 3, coords=np.array(case['sites100'], dtype=float) / 100, labels=case['labels'])
+    try:
+        tr = traj.transitions_between_sites(sites, 'Li', site_radius=1.0)
+    except ValueError as e:
+        if 'at least one array' in str(e):
+            return {'no_events': True}
+        raise
+    rd = tr.radial_distribution(floating_specie='Li', max_dist=case['max_dist'], resolution=case['res'])
+    got, edges = {}, None
+    for state, coll in rd.items():
+        for r in coll:
+            got[r.label] = got.get(r.label, 0) + np.array(r.y, dtype=int)
+            edges = np.array(r.x, dtype=float)
+    # the same float distances (same function, same coordinate arrays) sorted into the shells (x[k-1], x[k]] of the RETURNED edges
+    pos = np.array(traj.positions)
+    li = np.array(traj.filter('Li').positions)
+    syms = [str(sp.symbol) for sp in traj.species]
+    bad = []
+    for sym in sorted(set(syms)):
+        cols = [k for k, v in enumerate(syms) if v == sym]
+        want = np.zeros(len(edges), dtype=int)
+        for t in range(len(pos)):
+            d = lat.get_all_distances(li[t], pos[t][cols]).ravel()
+            idx = np.digitize(d, edges, right=True)
+            want += np.bincount(idx[idx < len(edges)], minlength=len(edges))
+        if sym not in got or not np.array_equal(want, got[sym]):
+            k = int(np.argmax(want != got.get(sym, np.zeros_like(want)))) if sym in got else -1
+            bad.append([sym, k, int(want[k]) if k >= 0 else None, int(got[sym][k]) if sym in got and k >= 0 else None, float(edges[k]) if k >= 0 else None])
+    return {'ideal_bad': bad}
+
+
 def impl(case):
+    if case.get('ideal'):
+        return _impl_ideal(case)
     from gemdat.rdf import radial_distribution_between_species
     from pymatgen.core import Structure
     rot = synth.rotation(random.Random(case['rseed'])) if case['rot'] else None
@@ -190,6 +249,11 @@ def _model_table(case, out, d2):
 def oracle(case, out):
     if out.get('no_events'):
         return []
+    if case.get('ideal'):
+        if 'ideal_bad' not in out:
+            return [('c11/harness-error', f"{out.get('error')}: {out.get('msg')} {out.get('tb', '')[-400:]}")]
+        return [('rdf/shell-differs-from-returned-edges', f'ideal crystal, shells of {case["res"]} A: species {b[0]}: shell ending at {b[4]} A holds {b[3]} pairs, '
+                 f'{b[2]} pair distances lie in (previous edge, {b[4]}]') for b in out['ideal_bad'][:1]]
     if 'table' not in out:
         return [('c11/harness-error', f"{out.get('error')}: {out.get('msg')} {out.get('tb', '')[-400:]}")]
     d2, near = _prep(case, out)
@@ -251,7 +315,7 @@ def _d2(v):
 
 
 def coq_term(case, out):
-    if 'table' not in out:
+    if 'table' not in out or case.get('ideal'):
         return None
     d2, near = _prep(case, out)
     if near:
@@ -310,6 +374,8 @@ def extra_coq(cases, outs, builddir):
 
 
 def nontrivial(case, out):
+    if case.get('ideal'):
+        return 'ideal_bad' in out
     if 'table' not in out:
         return False
     states = {s for s, _, _ in out['table']}
@@ -318,6 +384,8 @@ def nontrivial(case, out):
 
 
 def classify(case, out):
+    if case.get('ideal'):
+        return ['ideal-crystal(on-edge distances)']
     tags = []
     if out.get('no_events'):
         tags.append('no-events')
@@ -330,4 +398,6 @@ def classify(case, out):
 
 
 def sample(case, out):
+    if case.get('ideal'):
+        return {'ideal': case['coords100'][:1], 'res': case['res'], 'out': out}
     return {'m': case['m'], 'species': case['species'], 'labels': case['labels'], 'states': out.get('states'), 'table': out.get('table', [])[:3]}
